@@ -211,9 +211,14 @@ fn cmd_check(args: &[String]) {
         let _ = std::fs::remove_dir_all(&sandbox);
         let t_run = real_now();
         let ref_prop = property.clone();
+        let ref_plan = g.reference.clone();
         let (ref_res, _, _) = run_plan(&g.reference, &sandbox, true, false, &|rec| {
-            // the structural check needs no second run to compare with
-            if ref_prop == "C02" { oracle::c02_single(true, rec) } else { vec![] }
+            // the structural check and the outcome oracle need no second run to compare with
+            match ref_prop.as_str() {
+                "C02" => oracle::c02_single(true, rec),
+                "C15" => oracle::c15(&ref_plan, rec),
+                _ => vec![],
+            }
         });
         let mut line = run_line(&g, &g.reference, true, &ref_res.rec, &ref_res.violations);
         let ref_wall_ms = ((real_now() - t_run) * 1000.0) as u64;
